@@ -55,9 +55,10 @@ VARIABLES vo,      \* validatorObjects merged with the trie: [Vals -> record], f
           blobs,   \* delegation lists whose blob is in the database
           vj, aj,  \* validator journal, account journal
           revs, nextId,
+          oth, hasOth, \* the OTHER side of the last Copy (the original the copy was taken from): all per-object variables
           failed,  \* a panic
           hist
-vars == <<vo, stat, index, tix, dirty, acct, pend, blobs, vj, aj, revs, nextId, failed, hist>>
+vars == <<vo, stat, index, tix, dirty, acct, pend, blobs, vj, aj, revs, nextId, failed, oth, hasOth, hist>>
 
 Fixed(x) == x \in Fix
 MinSelfStake == 1
@@ -111,6 +112,9 @@ Init == /\ vo = [v \in Vals |-> IF Seeded THEN SeedVal ELSE NoVal]
         /\ acct = [a \in Accts |-> IF Seeded /\ a = 1 THEN [dbal |-> 7 * Cardinality(Vals), to |-> Vals] ELSE [dbal |-> 0, to |-> {}]]
         /\ pend = (IF Seeded THEN {1} ELSE {}) /\ blobs = {{}}
         /\ vj = <<>> /\ aj = <<>> /\ revs = <<>> /\ nextId = 0 /\ failed = FALSE
+        /\ oth = [vo |-> vo, stat |-> stat, index |-> index, tix |-> tix, dirty |-> dirty, acct |-> acct, pend |-> pend,
+                  vj |-> vj, aj |-> aj, revs |-> revs]
+        /\ hasOth = FALSE
         /\ hist = (IF Seeded THEN Prelude ELSE <<>>)
 
 Rec(name, v, a, d, id, on) == [op |-> name, v |-> v, a |-> a, d |-> d, id |-> id, on |-> on]
@@ -134,7 +138,7 @@ DoUpdate(v, old, new) ==
    /\ stat' = StatMove(stat, v, old, new)
 
 NoAcctChange == UNCHANGED <<acct, pend, aj>>
-Frame == UNCHANGED <<tix, dirty, blobs, revs, nextId, failed>>
+Frame == UNCHANGED <<tix, dirty, blobs, revs, nextId, failed, oth, hasOth>>
 
 \* teCreate: CreateValidator(..., ValidatorOffline); a removed record still in memory is kept in the journal entry
 Create(v, tok) ==
@@ -327,14 +331,14 @@ Remove(v) ==
 ForUpdate ==
    /\ Tick(Rec("ForUpdate", 0, 0, 0, 0, FALSE))
    /\ index' = IF Fixed("empty") \/ index = {} THEN index ELSE tix
-   /\ UNCHANGED <<vo, stat, tix, dirty, acct, pend, blobs, vj, aj, revs, nextId, failed>>
+   /\ UNCHANGED <<vo, stat, tix, dirty, acct, pend, blobs, vj, aj, revs, nextId, failed, oth, hasOth>>
 
 \* ---- snapshot / revert
 Snapshot ==
    /\ Tick(Rec("Snapshot", 0, 0, 0, nextId, FALSE))
    /\ revs' = Append(revs, [id |-> nextId, vi |-> Len(vj), ai |-> Len(aj)])
    /\ nextId' = nextId + 1
-   /\ UNCHANGED <<vo, stat, index, tix, dirty, acct, pend, blobs, vj, aj, failed>>
+   /\ UNCHANGED <<vo, stat, index, tix, dirty, acct, pend, blobs, vj, aj, failed, oth, hasOth>>
 
 \* one validator-journal entry undone: <<vo, stat, index>>
 UndoVal(s, e) ==
@@ -362,7 +366,7 @@ Revert(id) ==
       /\ vj' = SubSeq(vj, 1, revs[n].vi)
       /\ aj' = SubSeq(aj, 1, revs[n].ai)
       /\ revs' = SubSeq(revs, 1, n - 1)
-   /\ UNCHANGED <<tix, dirty, pend, blobs, nextId, failed>>
+   /\ UNCHANGED <<tix, dirty, pend, blobs, nextId, failed, oth, hasOth>>
 
 \* ---- transaction / block boundaries
 JDirty == { vj[n].v : n \in DOMAIN vj }
@@ -370,7 +374,7 @@ Finalise ==
    /\ Tick(Rec("Finalise", 0, 0, 0, 0, FALSE))
    /\ dirty' = dirty \cup { v \in JDirty : vo[v].mem # "none" }
    /\ vj' = <<>> /\ aj' = <<>> /\ revs' = <<>>
-   /\ UNCHANGED <<vo, stat, index, tix, acct, pend, blobs, nextId, failed>>
+   /\ UNCHANGED <<vo, stat, index, tix, acct, pend, blobs, nextId, failed, oth, hasOth>>
 
 \* IntermediateRoot(deleteEmptyObjects = true) on <<vo, stat, index>> with dirty set D
 Invalid(r) == r.tok <= 0 /\ r.stk <= 0
@@ -395,7 +399,7 @@ RootStep(name) ==
    /\ dirty' = {} /\ vj' = <<>> /\ aj' = <<>> /\ revs' = <<>>
    /\ pend' = IF name = "Root" THEN pend ELSE {}
    /\ blobs' = IF name = "Root" THEN blobs ELSE blobs \cup { acct[a].to : a \in pend }
-   /\ UNCHANGED <<acct, nextId, failed>>
+   /\ UNCHANGED <<acct, nextId, failed, oth, hasOth>>
 
 Root == RootStep("Root")
 Commit == RootStep("Commit")
@@ -404,6 +408,9 @@ Reload == RootStep("Reload")
 \* StateDB.Copy(): the behaviour continues on the copy.  Only dirty validator objects are copied (the others are reloaded
 \* from the trie); as coded a copied account object loses its loaded delegation list and the dirtyDlgs flag, so a list
 \* whose blob is not yet in the database cannot be read (panic) and would never be written.
+\* all per-object variables of the object currently operated on
+Side == [vo |-> vo, stat |-> stat, index |-> index, tix |-> tix, dirty |-> dirty, acct |-> acct, pend |-> pend,
+         vj |-> vj, aj |-> aj, revs |-> revs]
 CopyStep ==
    /\ Tick(Rec("Copy", 0, 0, 0, 0, FALSE))
    /\ LET D == dirty \cup { v \in JDirty : vo[v].mem # "none" } IN
@@ -416,6 +423,17 @@ CopyStep ==
    \* (journal dirties) has already copied
    /\ index' = index \cup (dirty \ { v \in JDirty : vo[v].mem # "none" })
    /\ UNCHANGED <<stat, tix, acct, blobs, nextId>>
+   \* the behaviour continues on the copy; the original stays around as the other side (independent of the copy)
+   /\ oth' = Side /\ hasOth' = TRUE
+
+\* the behaviour changes sides: the other object becomes the one operated on
+Swap ==
+   /\ hasOth
+   /\ Tick(Rec("Swap", 0, 0, 0, 0, FALSE))
+   /\ vo' = oth.vo /\ stat' = oth.stat /\ index' = oth.index /\ tix' = oth.tix /\ dirty' = oth.dirty
+   /\ acct' = oth.acct /\ pend' = oth.pend /\ vj' = oth.vj /\ aj' = oth.aj /\ revs' = oth.revs
+   /\ oth' = Side
+   /\ UNCHANGED <<blobs, nextId, failed, hasOth>>
 
 \* ---- next-state relations
 Bounded == \A v \in Vals : vo[v].tok <= 60 /\ vo[v].rew <= 40
@@ -424,7 +442,7 @@ SnapRev == Snapshot \/ (\E id \in 0..MaxOps : Revert(id))
 NextM ==
    \/ \E v \in Vals : Create(v, 15) \/ Withdraw(v, 15) \/ Status(v, TRUE) \/ Penalise(v, 12, FALSE)
    \/ \E a \in Accts, v \in Vals : Delegate(a, v, 7) \/ Undelegate(a, v, 7)
-   \/ SnapRev \/ Root \/ Reload \/ CopyStep \/ ForUpdate
+   \/ SnapRev \/ Root \/ Reload \/ CopyStep \/ ForUpdate \/ Swap
 
 NextMAlias ==    \* the forced status change of teDelegationSub: a validator whose stake comes from a delegation only
    \/ \E v \in Vals : Create(v, 7) \/ Status(v, TRUE)
@@ -451,7 +469,7 @@ NextDeleg3 ==    \* one delegator delegating to every validator: full withdrawal
    \/ SnapRev \/ Root \/ Reload \/ CopyStep
 
 NextBlind ==     \* freshly loaded state, copies, root computations and reloads with and without a read in between
-   \/ CopyStep \/ Reload \/ Root \/ Deposit(1, 7) \/ Status(1, TRUE)
+   \/ CopyStep \/ Swap \/ Reload \/ Root \/ Deposit(1, 7) \/ Status(1, TRUE)
 PreludeStep ==
    LET p == DynPrelude[Len(hist) + 1] IN
    CASE p.op = "Create" -> Create(p.v, p.d) [] p.op = "Reload" -> Reload [] OTHER -> FALSE
@@ -466,7 +484,7 @@ NextRich ==
         \/ \E d \in {7, 10} : Reward(v, d) \/ Distribute(v, d)
         \/ Settle(v) \/ Recover(v)
    \/ \E a \in Accts, v \in Vals, d \in {5, 7, 15} : Delegate(a, v, d) \/ Undelegate(a, v, d)
-   \/ SnapRev \/ Finalise \/ Root \/ Commit \/ Reload \/ CopyStep \/ ForUpdate
+   \/ SnapRev \/ Finalise \/ Root \/ Commit \/ Reload \/ CopyStep \/ ForUpdate \/ Swap
 
 Next == /\ Bounded
         /\ IF InPrelude THEN PreludeStep ELSE
@@ -506,5 +524,5 @@ Readable == ~failed \/ Cex("Readable")
 
 \* ---------------------------------------------------------------- generation
 Leaf == (GenMode = "leaf" /\ (Len(hist) = MaxOps \/ failed)) => PrintT("@@J " \o ToJson([kind |-> "B", h |-> hist]))
-View == <<vo, stat, index, tix, dirty, acct, pend, blobs, vj, aj, revs, nextId, failed>>
+View == <<vo, stat, index, tix, dirty, acct, pend, blobs, vj, aj, revs, nextId, failed, oth, hasOth>>
 =============================================================================
